@@ -1,6 +1,7 @@
 import GMGModel.Sym
 import Generated.InputFns
 import Generated.TestCases
+import Generated.SourceTerms
 import GMGDriver.Util
 /-! `gmgdriver inputfn`: the compiled input-function classes of every accepted non-Culham test case, sampled pointwise,
 against (a) the `Expr` terms the translator produced from their source and (b) the source term DERIVED by the model,
@@ -24,6 +25,7 @@ structure Tup where
   udi : Expr := Expr.zero
   lu : Expr := Expr.zero
   srcClass : String := ""
+  srcExpr : Option Expr := none      -- the translated rhs_f of the class, when its body is inside the translator's grammar
   maxF : Float := 0.0
   maxDiff : Float := 0.0
   worstPt : String := ""
@@ -36,6 +38,7 @@ structure St where
   tuples : Nat := 0
   points : Nat := 0
   luNodes : Nat := 0
+  srcPoints : Nat := 0               -- points at which a translated source term was compared with the compiled rhs_f
   sample : List String := []
 
 def hexF (s : String) : Float := (Hex.parseFloat s).getD 0.0
@@ -77,7 +80,8 @@ def step (st : St) (line : String) : IO St := do
                      stats := { st.stats with cases := st.stats.cases + 1 },
                      t := { key := key, env := env, u := prob.u, al := prob.alpha, be := prob.beta, fx := prob.Fx, fy := prob.Fy, jrr := fnOf gc "dFx_dr", jtr := fnOf gc "dFy_dr",
                             jrt := fnOf gc "dFx_dt", jtt := fnOf gc "dFy_dt", ud := fnOf bdCls "u_D", udi := fnOf bdCls "u_D_Interior", lu := lu,
-                            srcClass := lookup TestCases.Gen.sourceTerm key } }
+                            srcClass := lookup TestCases.Gen.sourceTerm key,
+                            srcExpr := (SourceTerms.Gen.table.find? (·.1 == lookup TestCases.Gen.sourceTerm key)).map (·.2) } }
   | "PT" :: r :: th :: rest =>
     let t := st.t
     let rf := hexF r; let tf := hexF th
@@ -89,7 +93,13 @@ def step (st : St) (line : String) : IO St := do
     let mut stats := st.stats
     for (name, e, val) in pairs do
       stats ← check stats (close (ev e) val 1e-3) fun _ => s!"tuple {t.key}: translated expression of {name} evaluates to {ev e}, the compiled class returns {val} at r={rf} theta={tf}"
-    let mut st := { st with stats := stats, points := st.points + 1 }
+    let mut srcPts := st.srcPoints
+    match t.srcExpr with
+    | some e =>
+      srcPts := srcPts + 1
+      stats ← check stats (close (ev e) (g "f") 1e-3) fun _ => s!"tuple {t.key}: translated expression of {t.srcClass}::rhs_f evaluates to {ev e}, the compiled class returns {g "f"} at r={rf} theta={tf}"
+    | none => pure ()
+    let mut st := { st with stats := stats, points := st.points + 1, srcPoints := srcPts }
     -- (b) implementation oracles: code Jacobian = derivative of the mapping; gyro profiles; boundary data = exact solution on the boundary
     let dchk : List (String × Float × Float) := [("dFx_dr", ev (D .r t.fx), g "Jrr"), ("dFy_dr", ev (D .r t.fy), g "Jtr"), ("dFx_dt", ev (D .th t.fx), g "Jrt"), ("dFy_dt", ev (D .th t.fy), g "Jtt")]
     for (name, m, val) in dchk do
@@ -128,7 +138,7 @@ def step (st : St) (line : String) : IO St := do
 def main : IO UInt32 := do
   let st ← forLines (← IO.getStdin) ({} : St) step
   let s := st.stats
-  IO.println s!"SUMMARY kind=inputfn cases={s.cases} checks={s.checks} diffs={s.diffs} rejects={s.rejects} tuples={st.tuples} points={st.points} derived_source_term_nodes={st.luNodes} oracle_fails={st.oracleFails}"
+  IO.println s!"SUMMARY kind=inputfn cases={s.cases} checks={s.checks} diffs={s.diffs} rejects={s.rejects} tuples={st.tuples} points={st.points} derived_source_term_nodes={st.luNodes} translated_source_term_points={st.srcPoints} oracle_fails={st.oracleFails}"
   for x in st.sample do IO.println s!"SAMPLE {x}"
   return (if s.diffs == 0 ∧ s.rejects == 0 ∧ st.oracleFails == 0 then 0 else 1)
 end InputFnDrv
